@@ -116,5 +116,5 @@ PROPS = {
     "C09": {"level": "model_checking", "models": ["MC_FarmLife", "MC_Math"], "families": ["farm"]},
     "C10": {"level": "model_checking", "models": ["MC_Farm"], "families": ["farm", "pool"]},
     "C11": {"level": "model_checking", "models": ["MC_FarmLife"], "families": ["farm"]},
-    "C18": {"level": "model_checking", "models": ["MC_Epoch"], "families": ["epoch"]},
+    "C18": {"level": "model_checking", "models": ["MC_Epoch"], "families": ["epoch"], "proofs": ["proofs/EpochLemmas.tla"]},
 }
